@@ -235,6 +235,64 @@ theorem C17_self_contained_schema_one_pass (os order : List Pass.Obj) (n : Nat) 
   have := (Pass.sweeps_good os order n _ h).2
   simp [Pass.suffixes, this]
 
+/-- When the sweep loop of `checkTypes` stops (condition regenerated: `sweepLoop`), **every** type of the schema has
+    been decided and none is CANTPROCESS — all of them are CANPROCESS on entry to `SCOPEPrint`, which is what the
+    file-set theorems above assume.  Holds because the loop runs `while( unknowncnt > 0 )` and `unknowncnt` counts every
+    object a sweep leaves NOTKNOWN (`sweep_counts`); a loop that may also stop after a bounded number of sweeps
+    does not have this property (witness below).  Nothing is claimed about *whether* the loop stops: it does not for
+    selects that contain each other through aggregates (`C17_select_cycle_never_settles_witness`, a recorded finding). -/
+theorem C17_loop_exit_means_all_types_decided (os order : List Pass.Obj) (k : Nat)
+    (hexit : Pass.loopMayExit Generated.CxxPass.sweepLoop (k + 1)
+              (Pass.loopState Generated.CxxPass.enumLastCase os order (k + 1))) :
+    ∀ o ∈ order, (Pass.loopState Generated.CxxPass.enumLastCase os order (k + 1)).marks o.name = .canprocess ∨
+                 (Pass.loopState Generated.CxxPass.enumLastCase os order (k + 1)).marks o.name = .processed := by
+  have hc : Generated.CxxPass.enumLastCase = .inSchemaOrProcessed := by decide
+  have hl : Generated.CxxPass.sweepLoop = .untilSettled := by decide
+  rw [hc] at hexit ⊢
+  rw [hl] at hexit
+  have hs := Pass.settled_of_unknown_zero os order k hexit
+  have hg := Pass.loopState_good os order (k + 1)
+  intro o ho
+  have h1 := hs o ho
+  have h2 := hg.1 o.name
+  cases hm : (Pass.loopState .inSchemaOrProcessed os order (k + 1)).marks o.name with
+  | notknown => exact absurd hm h1
+  | cantprocess => exact absurd hm h2
+  | canprocess => exact Or.inl rfl
+  | processed => exact Or.inr rfl
+
+/-- … and the schema is still printed once with suffix 0 whenever that loop stops. -/
+theorem C17_self_contained_schema_one_pass_loop (os order : List Pass.Obj) (k : Nat) :
+    Pass.suffixes (Pass.loopState Generated.CxxPass.enumLastCase os order k) = [0] := by
+  have hc : Generated.CxxPass.enumLastCase = .inSchemaOrProcessed := by decide
+  rw [hc]
+  simp [Pass.suffixes, (Pass.loopState_good os order k).2]
+
+/-- A loop that gives up after a fixed number of sweeps leaves types undecided: a chain of nested selects visited
+    outermost first needs one sweep per link (here 3 selects, bound 1: the loop may stop, two selects are still NOTKNOWN and
+    are never printed, while the scanner lists their files). -/
+theorem C17_bounded_sweeps_drop_types_witness :
+    let os : List Pass.Obj := [{ name := "s1", isSelect := true, items := ["s2"] },
+                               { name := "s2", isSelect := true, items := ["s3"] },
+                               { name := "s3", isSelect := true, items := [] }]
+    Pass.loopMayExit (.bounded 1) 1 (Pass.loopState .inSchemaOrProcessed os os 1) ∧
+    (Pass.loopState .inSchemaOrProcessed os os 1).marks "s1" = .notknown ∧
+    (Pass.loopState .inSchemaOrProcessed os os 1).marks "s2" = .notknown ∧
+    (Pass.loopState .inSchemaOrProcessed os os 3).unknown = 0 := by
+  refine ⟨Or.inr (Nat.le_refl 1), by decide, by decide, by decide⟩
+
+/-- Two selects that contain each other through an aggregate (`TYPE a = SELECT (list_of_b, …)`, `TYPE b = SELECT
+    (list_of_a, …)`; `checkItem` looks through one aggregate level) keep each other NOTKNOWN: after every one of the first
+    iterations `unknowncnt` is 2 again and the marks are as before — the unmodified exp2cxx (and exp2python) never leave
+    the loop.  (Replayed on the real programs with a time limit: input `select-cycle-through-aggregates`.) -/
+theorem C17_select_cycle_never_settles_witness :
+    let os : List Pass.Obj := [{ name := "a", isSelect := true, items := ["b"] },
+                               { name := "b", isSelect := true, items := ["a"] }]
+    ∀ k ∈ [1, 2, 3, 4, 5, 6], (Pass.loopState .inSchemaOrProcessed os os k).unknown = 2 ∧
+      (Pass.loopState .inSchemaOrProcessed os os k).marks "a" = .notknown ∧
+      (Pass.loopState .inSchemaOrProcessed os os k).marks "b" = .notknown := by
+  decide
+
 /-- Why that case matters: with `return ( a->search_id >= CANPROCESS )` as last case, a select visited before a renamed
     enumeration item and its original (both still NOTKNOWN) is marked CANTPROCESS and the single schema is printed as
     `_1`, `_2` (shape: `TYPE colour = ENUMERATION…; TYPE finish_colour = colour; TYPE pick = SELECT (finish_colour, …)`). -/
